@@ -32,8 +32,9 @@ Proof.
     - intros ts IH H. apply andb_true_iff in H. destruct H as [H1 H2]. apply TupleLat_ok; auto.
     - intros ts IH H. apply ProdLat_ok; auto.
     - intros n t IH H. apply ProdArrLat_ok; auto.
-    - intros _. exact SetLat_ok.
-    - intros n H. apply BSetLat_ok. apply Z.leb_le. exact H.
+    - intros t IH H. apply andb_true_iff in H. destruct H as [H1 H2]. apply SetLat_ok; auto.
+    - intros n t IH H. apply andb_true_iff in H. destruct H as [H H3]. apply andb_true_iff in H. destruct H as [H1 H2].
+      apply BSetLat_ok; auto. apply Z.leb_le. exact H3.
     - intros t IH H. apply CPLat_ok; auto.
     - intros t IH H. apply COne_ok; auto.
     - intros t IH ts IHs H. apply andb_true_iff in H. destruct H as [H1 H2]. apply CCons_ok; auto. }
@@ -113,7 +114,7 @@ Fixpoint ord_lty (t : lty) : bool :=
   | LInt _ _ | LBool | LUnit => true
   | LOption t | LRc t | LArc t | LBox t | LReverse t | LDual t | LOrd t => ord_lty t
   | LTuple ts => ord_ltys ts
-  | LProd _ | LProdArr _ _ | LSet | LBSet _ | LCP _ => false
+  | LProd _ | LProdArr _ _ | LSet _ | LBSet _ _ | LCP _ => false
   end
 with ord_ltys (ts : ltys) : bool :=
   match ts with
